@@ -63,8 +63,12 @@ def make(cfg):
         from distributed_shampoo.shampoo_types import CommunicationDType, DDPShampooConfig
 
         _patch_mesh_cache()
+        low = cfg.get("comm", "FP32") in ("BF16", "FP16")
+        if low:
+            symx.CTX.opts["round_low_precision"] = True  # casts to bfloat16/float16 become the uninterpreted rounding round_<dtype>(x)
         # ---- serial oracle
         S = H.OptRun(cfg)
+        W_before = [H.read(p) for p in S.params]
         info = S._sig("ddp-vs-serial", world=world, group=G)
         serial = []
         all_grads = []
@@ -133,11 +137,21 @@ def make(cfg):
         if other:
             symx.prove(f"a rank raised {type(other[0]).__name__}: {str(other[0])[:120]}", False, S._sig("rank-raised", world=world, group=G))
         # ---- replicas identical and equal to the serial run
+        rname = "round_" + {"BF16": "bfloat16", "FP16": "float16"}.get(cfg.get("comm", "FP32"), "")
+
+        def rnd(x):
+            x = symx.SymReal.lift(x)
+            return x if (x.c is not None and x.c == 0) else symx.opaque(rname, [x])
+
         for r in range(world):
             for k in range(T):
                 for pi, (a, b) in enumerate(zip(per_rank_params[r][k], serial[k])):
                     for idx in (np.ndindex(*a.shape) if a.ndim else [()]):
-                        symx.prove_equal(f"rank {r} equals the serial run (step {k + 1} param {pi}{list(idx)})", a[idx], b[idx], info)
+                        exp = b[idx]
+                        if low:
+                            # reduced precision: identical on all ranks, and off the serial result only by the rounding of what is communicated
+                            exp = rnd(b[idx]) if cfg.get("communicate_params", False) else W_before[pi][idx] + rnd(b[idx] - W_before[pi][idx])
+                        symx.prove_equal(f"rank {r} equals the serial run{' up to the rounding of the communicated quantity' if low else ''} (step {k + 1} param {pi}{list(idx)})", a[idx], exp, info)
         # ---- collective sequences
         logs = sim.log
         for r in range(world):
@@ -187,7 +201,12 @@ def jobs_for(tier):
     P4 = dict(params=[(2, 2), (2, 2), (2,), (2,)], mpd=2, merge=False)
     add(world=2, group=2, presence="symbolic", presence_params=[2, 3], graft=None, fixed=dict(mom=0, wd=0, b1=0), T=3, **P4)
     add(world=2, group=2, presence="symbolic", presence_params=[2, 3], communicate_params=True, graft=None, fixed=dict(mom=0, wd=0, b1=0), T=2, **P4)
+    # reduced-precision communication (one step from a common state): replicas identical, deviation = rounding of the communicated quantity
+    add(world=2, group=2, comm="BF16", T=1, sps=1, graft=None, fixed=dict(mom=0), **P5)
+    add(world=2, group=2, comm="FP16", communicate_params=True, T=1, sps=1, graft="sgd", fixed=dict(mom=0, wd=0), **P5)
     if tier == "thorough":
+        add(world=3, group=3, comm="BF16", communicate_params=True, T=1, sps=1, graft=None, **P5)
+        add(world=4, group=4, comm="FP16", T=1, sps=1, graft="adam", **P5)
         add(world=4, group=4, communicate_params=True, **P5)
         add(world=3, group=1, **P5)
         add(world=4, group=1, graft=None, **P5)
@@ -205,7 +224,7 @@ def run(tier, seed, argv):
     jobs = jobs_for(tier)
     if argv:
         jobs = [j for j in jobs if j["id"] in argv]
-    rep.bounds = dict(world_sizes="1..4 (thorough: ..8)", group_sizes="divisors", communicate_params="on/off", communication_dtype="FP32 (reduced precision: not modelled in this round)",
+    rep.bounds = dict(world_sizes="1..4 (thorough: ..8)", group_sizes="divisors", communicate_params="on/off", communication_dtype="FP32; BF16/FP16 with rounding as an uninterpreted function, one step",
                       steps="T=2", presence="symbolic in one configuration (quick) / two (thorough)")
     rep.assumptions = ["torch.distributed is the stand-in's lock-step simulator: it checks the SPMD contract (same collective sequences), not backend timing; by the standard SPMD argument equal sequences make the result independent of interleaving",
                        "per-process caches (get_device_mesh) are made per simulated rank by the harness", "single-member process groups created by one rank only are logged but not counted (nothing can be shown to fail on a real backend)",
